@@ -546,6 +546,22 @@ theorem associations_computed_spec (rows : List RowX) (fuel : Nat) (hf : fuelFor
   associations_computed rows fuel hf p a r ad h ha hc hr hrd
 
 open Hs.NsA in
+/-- a computed association is inherited: what is `tags` of a def is `tags` of every def below it (for every defs
+grid: `q` is, or transitively lists, `p`) -/
+theorem computed_association_inherited (rows : List RowX) (fuel : Nat) (hf : fuelFor (makeX rows).ns.defs ≤ fuel)
+    (p q a r : Name) (ad : DefX)
+    (h : getX (makeX rows).xd a = some ad) (ha : isAssoc ad = true) (hc : ad.has nComputed = true)
+    (hr : ad.getSymbol nReciprocalOf = some r) (hrd : defined (makeX rows).ns.defs r = true)
+    (hq : defined (makeX rows).ns.defs q = true) (hqp : ReflTransGen (Edge (makeX rows).ns.defs) q p) :
+    ∃ rp rq, associations fuel (makeX rows) p a = .ok rp ∧ associations fuel (makeX rows) q a = .ok rq ∧
+      ∀ n, n ∈ rp → n ∈ rq := by
+  obtain ⟨rp, hp1, hp2⟩ := associations_computed rows fuel hf p a r ad h ha hc hr hrd
+  obtain ⟨rq, hq1, hq2⟩ := associations_computed rows fuel hf q a r ad h ha hc hr hrd
+  refine ⟨rp, rq, hp1, hq1, fun n hn => ?_⟩
+  obtain ⟨d, l, t, hd, hdn, ht, htl, _, hpt⟩ := (hp2 n).1 hn
+  exact (hq2 n).2 ⟨d, l, t, hd, hdn, ht, htl, hq, hqp.trans hpt⟩
+
+open Hs.NsA in
 /-- `implementation`: the defined non-feature parts of the name in order, then the `mandatory` defs among their
 transitive supertypes -/
 theorem implementation_is_parts_and_mandatory_supertypes (rows : List RowX) (fuel : Nat)
